@@ -534,7 +534,80 @@ def op_io_iadd(w, a, b, c, d):
     io += [v] if v is not None else []
 
 
+def op_io_listapi(w, a, b, c, d):
+    """The rest of the list API a graph input/output collection inherits (in-place operators, sort, index types)."""
+    cont, io, outs = _io(w, a, d)
+    if cont is None:
+        return None
+    k = b % 8
+    v = w.value(c)
+    if k == 0:
+        io *= (c % 3)  # 0 clears, 1 keeps, 2 duplicates
+    elif k == 1:
+        return len(io * 2)
+    elif k == 2:
+        if v is None:
+            return None
+        io.insert("0", v)  # an index of the wrong type
+    elif k == 3:
+        if v is None:
+            return None
+        io.insert(None, v)
+    elif k == 4:
+        io.sort(key=lambda x: x.name or "")
+    elif k == 5:
+        cp = io.copy()  # a detached copy: editing it never touches the graph
+        if v is not None:
+            cp.append(v)
+        if cp:
+            cp.pop(0)
+        return len(cp)
+    elif k == 6:
+        if v is None:
+            return None
+        io[c % (len(io) + 1) : c % (len(io) + 1)] = iter([v])
+    else:
+        return (len(io), io.count(v), v in io)
+
+
 # initializers --------------------------------------------------------------
+def op_init_dictapi(w, a, b, c, d):
+    """The rest of the dict API the initializers mapping inherits (|=, |, copy, popitem, fromkeys-like use)."""
+    g = w.graph(a)
+    if g is None:
+        return None
+    inits = g.initializers
+    v = _init_value(w, g, c, d)
+    k = b % 6
+    if k == 0:
+        if v is None:
+            return None
+        inits |= {(v.name or name_from(w, c) or "k"): v}
+    elif k == 1:
+        if v is None:
+            return None
+        merged = inits | {(v.name or "k"): v}  # a new mapping: the graph's own initializers are not changed
+        return len(merged)
+    elif k == 2:
+        cp = inits.copy()  # a detached copy
+        for key in list(cp)[: 1 + c % 2]:
+            del cp[key]
+        if v is not None and v.name:
+            cp[v.name] = v
+        return len(cp)
+    elif k == 3:
+        if not len(inits):
+            return None
+        inits.popitem()
+    elif k == 4:
+        if v is None:
+            return None
+        # the same (possibly unnamed) value under two different keys
+        inits.update({(v.name or "p"): v, "q_" + (v.name or "p"): v})
+    else:
+        return (len(inits), sorted(map(str, inits.keys())), [x.name for x in inits.values()])
+
+
 def _init_value(w, g, b, d):
     if d & 1:
         return pick_where(w.values, b, lambda v: (v.graph is None or v.graph is g) and v.producer() is None and bool(v.name))
@@ -732,6 +805,20 @@ def op_attr_graph(w, a, b, c, d):
         n.attributes.add(ir.AttrInt64s("axes", [b % 3, c % 3]))
 
 
+def op_merge_shapes(w, a, b, c, d):
+    """Value.merge_shapes with compatible and conflicting shapes (a conflict may sit at any dimension)."""
+    v = w.value(a)
+    if v is None:
+        return None
+    # (this op never assigns the shape itself: a rejected merge must be the only thing that happened)
+    rank = len(v.shape) if v.shape is not None else 1 + d % 3
+    dims = []
+    for i in range(rank + (1 if b % 11 == 0 else 0)):
+        x = (b >> (2 * i)) % 4
+        dims.append([None, 3, 5, "m"][x])
+    v.merge_shapes(ir.Shape(dims))
+
+
 def op_meta_mutate(w, a, b, c, d):
     """In-place mutation of a mutable object stored in .meta (only meaningful against a deep copy)."""
     pool = [x for x in list(w.values) + list(w.nodes) + list(w.graphs) if isinstance(x.meta.get("trace"), list)]
@@ -816,6 +903,9 @@ OPS = {
     "rename_values": op_rename_values,
     "attr_graph": op_attr_graph,
     "meta_mutate": op_meta_mutate,
+    "io_listapi": op_io_listapi,
+    "init_dictapi": op_init_dictapi,
+    "merge_shapes": op_merge_shapes,
 }
 CONSTRUCTORS = {"new_value", "new_node", "new_node_with_outputs", "new_node_subgraph", "new_graph", "new_function", "new_model"}
 # weights for random histories (edits dominate; construction keeps the registry growing slowly)
@@ -826,6 +916,7 @@ WEIGHTS = {
     "io_append": 4, "io_extend": 4, "io_insert": 4, "io_pop": 3, "io_remove": 3, "io_clear": 1, "io_setitem": 4, "io_setslice": 4, "io_delitem": 4, "io_reverse": 1, "io_iadd": 1,
     "init_setitem": 4, "init_add": 3, "init_register": 2, "init_delitem": 3, "init_pop": 2, "init_clear": 1, "init_update": 3, "init_setdefault": 2,
     "value_name": 5, "value_attrs": 4, "node_attrs": 3, "rename_values": 4, "attr_graph": 2,
+    "io_listapi": 4, "init_dictapi": 4, "merge_shapes": 2,
 }  # fmt: skip
 
 
